@@ -427,12 +427,14 @@ func vgenInputs(r *vrand, nExact, nEdit, nScen, nMal int) []vinput {
 	// a verbatim fragment of a document, unrelated text, then the whole document with every 12th-18th
 	// word replaced: the longest single run belongs to the fragment, the claim with most tokens (fused
 	// from many short runs) to the full copy — the order of the fused claims matters
-	for i, d := range vpick(r.fork(5), nEdit/3+2) {
+	nf := 0
+	for i, d := range vpick(r.fork(5), 4*(nEdit/3+2)) {
 		rr := r.fork(uint64(290 + i))
 		ws := strings.Fields(string(d.data))
-		if len(ws) < 150 {
+		if len(ws) < 150 || len(ws) > 3000 || nf >= nEdit/3+2 {
 			continue
 		}
+		nf++
 		fl := 40 + rr.intn(40)
 		at := rr.intn(len(ws) - fl)
 		var sb strings.Builder
